@@ -170,6 +170,10 @@ structure Ext (α : Type) where
   curvOfOmm : List α → List α
   /-- `sum(mapped_reconstructed_data_dict.values())` of the mapping formalism -/
   mappedMapping : List α → List α → List α
+  /-- mapping.py `_data_vector_mapper` computed (the per-mapper data vectors at the mapper entries,
+      zeros at the func-list entries): what `Preloads.set_curvature_matrix` stores in
+      `data_vector_mapper`.  Not used by any accessor; it names "what would be computed" for that slot. -/
+  dvmMapping : List α
   -- dataset / imaging/w_tilde.py
   /-- `dataset.w_tilde` -/
   wtCompute : List α
